@@ -46,6 +46,11 @@ pub enum WakeHow {
 pub enum Op {
     Push { beh: Beh, how: PushHow },
     Extend { behs: Vec<Beh> },
+    /// `n` pushes of the same behaviour (push_back / push)
+    PushMany { beh: Beh, n: u32 },
+    /// the `n` oldest live unfinished children finish now (futures become ready, sources are
+    /// closed) and are woken
+    FinishOldest { n: u32 },
     /// one poll; `fresh`: with a task waker never used before
     Poll { fresh: bool },
     /// poll repeatedly (same task waker) while items come out, at most `max` polls
@@ -219,6 +224,14 @@ pub struct Config {
     /// (it knows one more item is coming: a paced stream); the promise is kept when it is closed
     #[serde(default)]
     pub src_promise: bool,
+    /// children invoke wakers of the same collection from inside their own drop: their own (then
+    /// stale) waker and the waker of a sibling that is still held
+    #[serde(default)]
+    pub wake_in_drop: bool,
+    /// before the run proper: drive every collection and combinator with `(n, r1)` zero-sized
+    /// futures / streams against a count-only model (module `zst`)
+    #[serde(default)]
+    pub zst_children: Option<(u16, u16)>,
     /// name of the workload that generated this run (evidence only)
     pub workload: String,
 }
